@@ -94,6 +94,7 @@ fn run(cx: &mut Cx, mode: Mode) {
         });
     }
     cx.run();
+    if mode == Mode::Complete && cx.ch.chance("concurrent_burst", 1, 8) { crate::scen_burst::proof_burst(cx, true); }
 }
 
 #[allow(clippy::too_many_arguments)]
